@@ -158,3 +158,46 @@ theorem literal_from_factory_sound (so : SortOracle) (n : Nat) (f : Val) (t : Tx
             exact ⟨e, v, (asLit_eq hk.1).symm, rfl, sameEmpty_sound hk.2⟩
 
 end Adaptix.Default
+
+namespace Adaptix.Default
+open Generated
+
+theorem builtins_flat : pyBuiltins.all (fun p => p.2.flatB) = true := by decide
+
+theorem lookup_bi_flat {n : List Char} {x : Val} (h : lookupName n bi = some x) : x.flatB = true := by
+  have := List.all_eq_true.mp builtins_flat _ (lookupName_mem h)
+  exact this
+
+/-- evaluation of a rendered expression never yields an opaque object (other
+    than the failure token): opaque objects cannot be written as literals -/
+theorem eval_not_opaque (e : PyExpr) {c : String} {i : Nat} {k : Option Int} {h : Bool}
+    (he : e.eval bi = .opaque c i k h) : c = "<not-a-literal>" := by
+  cases e with
+  | atom v =>
+    simp only [PyExpr.eval] at he
+    split at he
+    · rename_i hv; rw [he] at hv; simp [Val.atomOk] at hv
+    · simp only [garbage, Val.opaque.injEq] at he; exact he.1.symm
+  | name n =>
+    simp only [PyExpr.eval] at he
+    split at he
+    · rename_i v hv
+      have := lookup_bi_flat hv
+      rw [he] at this; simp [Val.flatB] at this
+    · simp only [garbage, Val.opaque.injEq] at he; exact he.1.symm
+  | list es => simp [PyExpr.eval] at he
+  | tuple es => simp [PyExpr.eval] at he
+  | paren e => exact eval_not_opaque e (by simpa [PyExpr.eval] using he)
+  | set es => cases es <;> simp [PyExpr.eval] at he
+  | dict kvs => simp [PyExpr.eval] at he
+  | call f args =>
+    simp only [PyExpr.eval] at he
+    split at he <;> try (simp at he)
+    · split at he
+      · simp at he
+      · simp only [garbage, Val.opaque.injEq] at he; exact he.1.symm
+    · simp only [garbage, Val.opaque.injEq] at he; exact he.1.symm
+  | emptyStr => simp [PyExpr.eval] at he
+  | emptyBytes => simp [PyExpr.eval] at he
+
+end Adaptix.Default
